@@ -43,6 +43,66 @@ def through_wire(results, replies):
     return out.presentation_context_definition_results_list, rr
 
 
+def acse_roles_check():
+    """native: the REAL ACSE._negotiate_as_requestor with a stub association; the roles every requested context carries when
+    negotiate_as_requestor is called, for lists with repeated abstract syntaxes"""
+    import itertools
+    import types
+    import pynetdicom.acse as acse_mod
+    from pynetdicom.acse import ACSE
+    AB = ["1.2.840.10008.5.1.4.1.1.2", "1.2.840.10008.5.1.4.1.1.4"]
+    ROLES = [(None, None), (True, False), (None, True), (True, True)]
+    role_maps = [{}]
+    for a in ROLES:
+        role_maps += [{AB[0]: a}, {AB[1]: a}] + [{AB[0]: a, AB[1]: b} for b in ROLES]
+    snap = {}
+    orig = acse_mod.negotiate_as_requestor
+
+    def spy(rq, results, roles=None):
+        snap["roles"] = [(c.scu_role, c.scp_role) for c in rq]
+        return orig(rq, results, roles)
+    acse_mod.negotiate_as_requestor = spy
+    try:
+        for k in (1, 2, 3):
+            for abs_ in itertools.product(AB, repeat=k):
+                for rmap in role_maps:
+                    snap.clear()
+                    cxs = [cx(2 * i + 1, ab, [TS[0]]) for i, ab in enumerate(abs_)]
+                    items = {ab: types.SimpleNamespace(scu_role=v[0], scp_role=v[1]) for ab, v in rmap.items()}
+                    rsp = A_ASSOCIATE()
+                    rsp.result = 0
+                    rsp.presentation_context_definition_results_list = []
+                    ready = types.SimpleNamespace(wait=lambda: True)
+                    sock = types.SimpleNamespace(_ready=ready, _is_connected=True)
+                    dul = types.SimpleNamespace(receive_pdu=lambda wait=True, timeout=None: rsp, kill_dul=lambda: None, socket=sock)
+                    assoc = types.SimpleNamespace(requestor=types.SimpleNamespace(requested_contexts=cxs, role_selection=items, primitive=None),
+                                                  acceptor=types.SimpleNamespace(role_selection={}, primitive=None), dul=dul, acse_timeout=1,
+                                                  get_handlers=lambda e: [], kill=lambda: None, abort=lambda: None, _accepted_cx={}, _rejected_cx=[],
+                                                  is_established=False, is_aborted=False, is_rejected=False, accepted_contexts=[])
+                    a = ACSE(assoc)
+                    a.send_request = lambda: None
+                    a.send_abort = lambda *x: None
+                    try:
+                        a._negotiate_as_requestor()
+                    except Exception as e:
+                        return dict(input={"requested abstract syntaxes": list(abs_), "role items": rmap}, observed=repr(e), expected="no exception")
+                    want = [((rmap[ab][0] or False, rmap[ab][1] or False) if ab in rmap else (None, None)) for ab in abs_]
+                    if snap.get("roles") != want:
+                        return dict(input={"requested contexts (abstract syntaxes)": list(abs_), "role items (abstract syntax -> (scu, scp))": rmap},
+                                    observed={"roles of the requested contexts when negotiate_as_requestor is called": snap.get("roles")},
+                                    expected=want)
+    finally:
+        acse_mod.negotiate_as_requestor = orig
+    return None
+
+
+_rec = load() if len(sys.argv) > 1 else {"id": ""}
+if "_negotiate_as_requestor" in _rec.get("id", "") or _rec.get("id", "").endswith("cross-check"):
+    _bad = acse_roles_check()
+    if _bad:
+        done(True, **_bad)
+    if "_negotiate_as_requestor" in _rec.get("id", ""):
+        done(False, note="the real ACSE._negotiate_as_requestor applied the proposed roles to every requested context")
 bad = None
 n = 0
 for prop in [None] + R.RQ_PROPOSALS[1:]:
